@@ -87,6 +87,12 @@ def build_info(le, cus):
             abbrev += bytes([1 if i == 0 else 0])
             body += uleb(code)
             for name, form, value in attrs:
+                if form.startswith('DW_FORM_indirect>'):
+                    # declared DW_FORM_indirect: the DIE carries the code of the real form, then the value in it
+                    real = form[len('DW_FORM_indirect>'):]
+                    abbrev += uleb(ENUM_DW_AT[name]) + uleb(ENUM_DW_FORM['DW_FORM_indirect'])
+                    body += uleb(ENUM_DW_FORM[real]) + enc_form(le, is64, asz, real, value)
+                    continue
                 abbrev += uleb(ENUM_DW_AT[name]) + uleb(ENUM_DW_FORM[form])
                 body += enc_form(le, is64, asz, form, value)
             abbrev += b'\0\0'
